@@ -17,7 +17,8 @@ RULE = ('The decompositions of C09 (named sub-specifications through add_sub_spe
         'data supplied (whole list offline, current value / current batch online) and get_value(n) of each sub-specification name and of '
         'the output name must equal the result of a stand-alone specification whose text is the formula bound to n (pastified if the '
         'host was), run by the same monitor kind on the same data: the whole signal offline (one value per sample in discrete time), the '
-        'value of the current update online. Non-trivial = a named sub-formula that is temporal and nested >= 2 deep, or operand of a '
+        'value of the current update online. Lane edited: the object was parsed before with a text that binds the same names to other formulas '
+        '(text replaced + parse() again), or both definitions stand in one text (the later one is in force). Non-trivial = a named sub-formula that is temporal and nested >= 2 deep, or operand of a '
         'bounded future operator, or referenced twice; distinct = distinct (modular text, data, kind) digests.')
 
 ASSUMPTIONS = [
@@ -246,4 +247,53 @@ def delayed_hosts(tier):
     return mk()
 
 
+def edited_hosts(tier):
+    """The specification object was parsed before with another text that binds the same names (sub0, sub1, out) to other
+    formulas; the text is then replaced and parsed again (pastified if the kind asks for it)."""
+    from hypothesis import strategies as st
+
+    @st.composite
+    def mk(draw):
+        kind = draw(st.sampled_from(KINDS))
+        c = draw(decomposed(kind, tier))
+        p = draw(decomposed(kind, tier))
+        if not c['subs']:
+            cands = [s for s in set(F.subterms(from_json(c['formula']))) if s[0] not in ('var', 'const') and s != from_json(c['formula']) and F.fvars(s)]
+            if cands:
+                c['subs'] = [sorted(cands, key=lambda s: (F.size(s), repr(s)))[0]]
+        c['delivery'] = 'assertions'
+        c['consts'] = []
+        c['bound_const'] = None
+        # the previous text talks about the declared variables (reparse: the new text may not use all of them) or, when
+        # both definitions stand in one text, about the variables the new text uses
+        mode = draw(st.sampled_from(['reparse', 'reparse', 'redefine']))
+        target = c['vars'] if mode == 'reparse' else ([v for v in c['vars'] if v in F.fvars(from_json(c['formula']))] or c['vars'])
+        rename = dict(zip(p['vars'], target * len(p['vars'])))
+
+        def ren(g):
+            if g[0] == 'var':
+                return ('var', rename.get(g[1], target[0]))
+            return tuple(ren(x) if isinstance(x, tuple) else x for x in g)
+        c['previous'] = {'formula': ren(from_json(p['formula'])), 'subs': [ren(from_json(s)) for s in p['subs']],
+                         'mode': mode}
+        return c
+    return mk()
+
+
+def cand_edited(case):
+    for c in mod_candidates(case):
+        yield c
+    prev = case['previous']
+    if prev['subs']:
+        for i in range(len(prev['subs'])):
+            yield dict(case, previous=dict(prev, subs=prev['subs'][:i] + prev['subs'][i + 1:]))
+    from ..common import formula_candidates
+    for f2 in formula_candidates(from_json(prev['formula'])):
+        if not F.fvars(f2):
+            continue
+        st2 = set(F.subterms(f2))
+        yield dict(case, previous=dict(prev, formula=f2, subs=[s for s in prev['subs'] if from_json(s) in st2 and from_json(s) != f2]))
+
+
+LANES.append(Lane('edited', edited_hosts, check, 1000, 12000, cand_edited))
 LANES.append(Lane('pastified_delayed', delayed_hosts, check_finding, 800, 8000, mod_candidates))
